@@ -107,6 +107,9 @@ class Explorer:
         try:
             for pname, spec in specs.items():
                 args[pname] = spec.make(pname, ctx)
+            if getattr(con, 'globals_spec', None):
+                ctx.ghost['globals'] = {k: sp.make(k, ctx) for k, sp in con.globals_spec.items()}
+                ctx.ghost['globals_at_entry'] = dict(ctx.ghost['globals'])
             old = {k: (v.copy() if isinstance(v, SList) else v) for k, v in args.items()}
             oldview = {k: raw(v) for k, v in old.items()}
             from .values import pytype_tag
@@ -114,6 +117,8 @@ class Explorer:
             smt.CURRENT_CTX = ctx
             if con.requires is not None:
                 ctx.assume(list(_as_dict(con.call(con.requires, oldview, tys)).values()))
+            if getattr(con, 'decreases', None) is not None:
+                ctx.ghost['measure_at_entry'] = con.call(con.decreases, oldview, tys)
             interp = Interp(ctx, self.reg, self.lib)
             interp.skeleton = bool(getattr(con, 'skeleton', False))
             try:
@@ -151,7 +156,10 @@ class Explorer:
                     ctx.oblige(f'post.{cname}', f, extra_terms=hints)
             for cname, f in con.canaries.items():
                 g = con.call(f, oldview, tys, resv)
-                if isinstance(g, smt.Forall):
+                if isinstance(g, smt.ForallKey):
+                    kk = smt.fresh('wkey', z3.StringSort())
+                    ctx.oblige(f'canary.{cname}', z3.Not(smt._b(g.body(kk))), expect='sat', extra_terms=[kk])
+                elif isinstance(g, smt.Forall):
                     j = smt.fresh_int('w')
                     gg = z3.And(smt.lift(g.lo) <= j, j < smt.lift(g.hi), z3.Not(smt._b(g.body(j))))
                     ctx.oblige(f'canary.{cname}', gg, expect='sat', extra_terms=[j])
